@@ -198,9 +198,71 @@ def run_pos(sh, ctx):
 				check_loaded(ctx, w, db, id_attr, order, desc)
 			finally:
 				db.signatures.close(); db.session.close()
+			if wi % 2 == 0 and n >= 2:
+				try:
+					rekey_history(ctx, w, d, id_attr, order, desc, rng)
+				except Exception as e:
+					ctx.inconc(f'rekey history: harness raised {type(e).__name__}: {e}')
 				if restore:
 					w.genomes[restore[0]][id_attr], w.genomes[restore[2]][id_attr] = restore[1], restore[3]
 			shutil.rmtree(d, ignore_errors=True)
+
+
+def rekey_history(ctx, w, d, id_attr, order, desc, rng):
+	"""One long-lived genome-set object, several databases built from it, the identifiers edited and committed in between: every
+	database is paired by the identifier values the genomes have WHEN IT IS BUILT (nothing remembered from an earlier build)."""
+	import copy
+	from gambit.db import ReferenceDatabase
+	from gambit.db.sqla import file_sessionmaker
+	from gambit.db.models import ReferenceGenomeSet, Genome
+	from gambit.sigs.base import load_signatures
+	n = len(w.genomes)
+	session = file_sessionmaker(d / 'genomes.gdb', readonly=False)()
+	sigs = load_signatures(str(d / 'signatures.gs'))
+	desc = dict(desc, history='build, swap the identifiers of two genomes, commit, build again from the same genome-set object')
+	try:
+		gset = session.query(ReferenceGenomeSet).filter_by(key=w.gset['key']).one()
+		try:
+			db1 = ReferenceDatabase(gset, sigs)
+		except Exception as e:
+			ctx.violation('valid-database-refused', f'ReferenceDatabase(genome set, signatures) raised {type(e).__name__}: {e}', desc)
+			return
+		check_loaded(ctx, w, db1, id_attr, order, dict(desc, build=1))
+		a, b = rng.sample(range(n), 2)
+		ga = session.query(Genome).filter_by(key=w.genomes[a]['key']).one()
+		gb = session.query(Genome).filter_by(key=w.genomes[b]['key']).one()
+		va, vb = getattr(ga, id_attr), getattr(gb, id_attr)
+		tmp = 'tmp-while-swapping' if isinstance(va, str) else 2 ** 40 + 12345
+		setattr(ga, id_attr, tmp); session.flush()
+		setattr(gb, id_attr, va); session.flush()
+		setattr(ga, id_attr, vb); session.commit()
+		w2 = copy.copy(w)
+		w2.genomes = [dict(g) for g in w.genomes]
+		w2._dist_cache = {}
+		if id_attr != 'key':
+			# genome a now carries b's identifier, hence b's signature, and the other way round (with 'key' the rows simply trade names)
+			for f in (id_attr, 'sig', 'sigset'):
+				w2.genomes[a][f], w2.genomes[b][f] = w2.genomes[b][f], w2.genomes[a][f]
+		try:
+			db2 = ReferenceDatabase(gset, sigs)
+		except Exception as e:
+			ctx.violation('valid-database-refused', f'second build after swapping two identifiers raised {type(e).__name__}: {e}', desc)
+			return
+		ctx.count('databases_rebuilt_from_one_genome_set_after_identifier_edit')
+		check_loaded(ctx, w2, db2, id_attr, order, dict(desc, build=2, swapped=[w.genomes[a]['key'], w.genomes[b]['key']]))
+		# third build: one genome re-keyed to an identifier that has no signature in the file -> "some genome has no signature"
+		gone = 'no-signature-has-this-id' if isinstance(va, str) else 2 ** 40 + 777
+		setattr(ga, id_attr, gone); session.commit()
+		ctx.count('negative:rekeyed-to-identifier-without-signature')
+		try:
+			db3 = ReferenceDatabase(gset, sigs)
+		except Exception as e:
+			ctx.seen('load_error_types', f'rekeyed-without-signature:{type(e).__name__}')
+		else:
+			ctx.violation('incomplete-database-loaded:rekeyed-without-signature', f'third build: genome {ga.key} has {id_attr}={gone!r}, no signature carries that identifier, yet a database with {len(db3.genomes)} genomes was built', desc)
+	finally:
+		sigs.close()
+		session.close()
 
 
 def expect_load_failure(ctx, d, cls, desc):
@@ -501,7 +563,7 @@ def finalize(merged, tier, seed, inconclusive):
 	c = merged['counters']
 	need = [f'id_attr:{a}' for a in ID_ATTRS] + ['order:random', 'order:reversed', 'with_unrelated_signatures', 'negative:dropped-signature', 'negative:renamed-id',
 	        'negative:id_attr-none', 'negative:id_attr-attribute-absent', 'negative:id_attr-misspelt', 'negative:null-id-column', 'negative:ids-of-wrong-kind', 'negative:dir:two-gdb', 'negative:dir:no-signature-file',
-	        'directory_ok:db+h5', 'cli_commands', 'big_databases', 'interleaved_queries_on_one_database', 'negative:near-miss-id', 'look_alike_identifier_pairs', 'databases_built_for_one_of_two_genome_sets']
+	        'directory_ok:db+h5', 'cli_commands', 'big_databases', 'interleaved_queries_on_one_database', 'negative:near-miss-id', 'look_alike_identifier_pairs', 'databases_built_for_one_of_two_genome_sets', 'databases_rebuilt_from_one_genome_set_after_identifier_edit', 'negative:rekeyed-to-identifier-without-signature']
 	for n in need:
 		if c.get(n, 0) == 0:
 			inconclusive.append(f'class never observed: {n}')
